@@ -20,7 +20,7 @@ import (
 )
 
 func init() {
-	evid.Register(&evid.Check{ID: "C16", Level: "exploration", Run: run, QuickBudget: 150 * time.Second, ThoroughBudget: 20 * time.Minute})
+	evid.Register(&evid.Check{ID: "C16", Level: "exploration", Run: run, QuickBudget: 420 * time.Second, ThoroughBudget: 30 * time.Minute})
 }
 
 // counter is a concurrency-safe string -> count map for coverage facts.
@@ -83,12 +83,14 @@ func run(r *evid.Run) {
 	}
 	r.Rule(fmt.Sprintf("documents: for each file type and each frame (version x layout) every feature vector with at most %d non-zero dimensions, every non-zero dimension at every value (%d-way exhaustive, not the full product); "+
 		"a document is a distinct non-trivial case iff its text is new, the reader accepts it and its accessor dump differs from the dump of the frame's empty document (the features had an effect). "+
-		"migration: workspaces of the workspace grammar (layout x module kinds x roots x excludes x names x lint/breaking sections x deps): every single dimension at every value, all pairs of interacting dimensions (thorough: all pairs and all interacting triples); a workspace is distinct iff its feature key is new, it builds/lints/breaking-checks before migration and the migrator accepted it.", t, t))
+		"migration: workspaces of the workspace grammar (layout x module kinds x roots x excludes x names x lint/breaking sections x deps): every single dimension at every value, all pairs of interacting dimensions (thorough: all pairs and all interacting triples); a workspace is distinct iff its feature key is new, it builds/lints/breaking-checks before migration and the migrator accepted it. "+
+		"migration, dependency-merge worlds: the declarations of one shared remote dependency (none / unpinned / :r1 / :r2) by two modules as a full product and by three declaring modules as multisets, with and without a buf.work.yaml, x which modules carry a buf.lock, file versions, a second dependency / a dependency on a workspace module (quick: one at a time; thorough: full product, plus the full 4x4x4 product of declarations by three modules).", t, t))
 	r.Set("t_way", t)
+	r.Assume("migration, dependencies: the in-process registry holds one commit per remote module, so every ref (:r1, :r2, none) of a module resolves to the same commit; which of two different declared refs the migrator keeps is then a tie and either is accepted")
 	r.Assume("the dimension grammar is t-way exhaustive (t=2 quick, t=3 thorough), not the full product of all features")
 	r.Assume("'the same configuration' is judged on the public accessors of the parsed objects (deep accessor dump); for v2 buf.yaml the TopLevelLintConfig/TopLevelBreakingConfig accessors are informational because hoisting identical per-module sections is the writer's documented freedom; the per-module effective configs are compared strictly")
 
-	// VERIF_C16_PHASES (development aid): comma separated subset of yaml,lock,work,gen,migrate
+	// VERIF_C16_PHASES (development aid): comma separated subset of yaml,lock,work,gen,migdeps,migrate
 	phases := map[string]bool{}
 	for _, p := range strings.Split(os.Getenv("VERIF_C16_PHASES"), ",") {
 		if p != "" {
@@ -110,6 +112,9 @@ func run(r *evid.Run) {
 	}
 	if on("gen") && !r.Expired() {
 		runBufGen(r, t)
+	}
+	if on("migdeps") && !r.Expired() {
+		runMigrationDeps(r)
 	}
 	if on("migrate") && !r.Expired() {
 		runMigration(r)
